@@ -271,6 +271,13 @@ def rule_diffusion_step(chk, prog):
     return
   top = subs[0]
   common.check_padded_index(chk, 'C15.9-top-mode', site, top, call.loc)
+  # …and it is exactly the last resolved total wavenumber (index total_wavenumbers − 1): one further is padding (0 → infinite scale)
+  # or out of range, one less does not give the documented e-folding of the top mode
+  Ai = alg.Algebra(ev)
+  Ls = Ai.name(lambda t: t.k == 'attr' and t.a[1] == 'total_wavenumbers', 'L', integer=True, positive=True)
+  idx = top.a[1]
+  chk.check(idx.k not in ('tuple', 'slice') and alg.equal(Ai.conv(idx), Ls - 1), 'C15.9-top-mode', f'{site}: the normalising eigenvalue is that of total wavenumber L − 1 (the top resolved mode)',
+            sym.show(idx), call.loc, 'total_wavenumbers - 1', sym.show(idx))
   # scale · |λ_top|^order == dt / tau
   A = alg.Algebra(ev, opaque=lambda t: t == top)
   e = A.conv(scale) * sp.Abs(A.atom(top)) ** A.conv(Term('sym', 'order'))
@@ -304,7 +311,7 @@ def run(chk, prog, tier):
     v, _, _ = ev.run(f)
     chk.check(v.k == 'call' and util.callee_name(v) == adapter, 'C15.8-adapters', f'{TI}.{fname}: wraps its state filter with {adapter}', sym.show(v, maxdepth=4)[:160], (f.file, f.lineno),
               adapter, util.callee_name(v) if v.k == 'call' else sym.show(v)[:80])
-  for r, n in (('C15.1-factor-range', 4), ('C15.2-mean-preserved', 2), ('C15.3-depends-on-l-only', 2), ('C15.4-non-increasing', 2), ('C15.5-step-consistency', 11), ('C15.9-top-mode', 2)):
+  for r, n in (('C15.1-factor-range', 4), ('C15.2-mean-preserved', 2), ('C15.3-depends-on-l-only', 2), ('C15.4-non-increasing', 2), ('C15.5-step-consistency', 11), ('C15.9-top-mode', 3)):
     chk.at_least(r, n)
   chk.assume('attenuation ≥ 0, scale ≥ 0, order a positive integer, 0 ≤ cutoff < 1, tau > 0, dt > 0, radius > 0, 0 ≤ r ≤ ½',
              'total wavenumbers are ≥ 0 and their maximum is > 0 (grids with at least two total wavenumbers)',
